@@ -39,26 +39,55 @@ def default_tables():
 
 
 # ------------------------------------------------------------------------------------------ abstract -> real
-def _pts(ps):
+def _pts(ps, jitter=None):
+    if jitter:
+        # 'fine' inputs: every coordinate is moved off the quarter grid by +-2**-jitter (still an exact float64)
+        out = np.array([[x / 4.0 + _jsign(x) * 2.0 ** -jitter, y / 4.0 + _jsign(y) * 2.0 ** -jitter] for x, y in ps],
+                       dtype=np.float64)
+        for (x, y), (fx, fy) in zip(ps, out):
+            if Fraction(float(fx)) != _jexact(x, jitter) or Fraction(float(fy)) != _jexact(y, jitter):
+                raise RuntimeError("jittered coordinate is not exactly representable")
+        return out
     return np.array([[x / 4.0, y / 4.0] for x, y in ps], dtype=np.float64)
+
+
+def _jsign(q):
+    """towards the odd neighbour of a tie, away from it otherwise: n.5 - eps for odd n, n.5 + eps for even n"""
+    return -1 if (q // 4) % 2 else 1
+
+
+def _jexact(q, jitter):
+    return Fraction(q, 4) + _jsign(q) * Fraction(1, 2 ** jitter)
+
+
+def oracle_page(ap, jitter):
+    """The page a 'fine' input (coordinates q/4 +- 2**-jitter, finer than TLC's quarter grid and than float32) must come back
+    as: every coordinate replaced by the nearest integer of the EXACT rational value (fractions.Fraction, ties cannot occur),
+    expressed in quarters.  Independent of pero_ocr and of numpy rounding; PageXml_Trace judges the execution against it."""
+    def rp(ps):
+        return [[4 * int(round(_jexact(x, jitter))), 4 * int(round(_jexact(y, jitter)))] for x, y in ps]
+    out = dict(ap, regions=[])
+    for r in ap["regions"]:
+        out["regions"].append(dict(r, poly=rp(r["poly"]), lines=[dict(l, bl=rp(l["bl"]), poly=rp(l["poly"])) for l in r["lines"]]))
+    return out
 
 
 def _opt_tok(o, table):
     return None if not o else table[o[0]]
 
 
-def build_real(ap, tables):
+def build_real(ap, tables, jitter=None):
     """abstract page (dict) -> real PageLayout.  Only exactly representable binary fractions are produced."""
     page = PageLayout(id=tables["pids"][ap["pid"]], page_size=(ap["size"][0], ap["size"][1]))
     if ap["hasRO"]:
         page.reading_order = {rid: idx for rid, idx in ap["ro"]}
     for r in ap["regions"]:
-        reg = RegionLayout(r["id"], _pts(r["poly"]), region_type=_opt_tok(r["typ"], tables["types"]))
+        reg = RegionLayout(r["id"], _pts(r["poly"], jitter), region_type=_opt_tok(r["typ"], tables["types"]))
         reg.transcription = _opt_tok(r["text"], tables["texts"])
         for l in r["lines"]:
             hts = None if not l["hts"] else [l["hts"][0] / 80.0, l["hts"][1] / 80.0]
             conf = None if not l["conf"] else l["conf"][0] / 128000.0
-            reg.lines.append(TextLine(id=l["id"], baseline=_pts(l["bl"]), polygon=_pts(l["poly"]), heights=hts,
+            reg.lines.append(TextLine(id=l["id"], baseline=_pts(l["bl"], jitter), polygon=_pts(l["poly"], jitter), heights=hts,
                                       transcription=_opt_tok(l["text"], tables["texts"]),
                                       transcription_confidence=conf, index=(l["idx"][0] if l["idx"] else None)))
         page.regions.append(reg)
@@ -312,8 +341,9 @@ def run_case(case):
     """case = {"page": abstract page, "v1": 1|2, "v2": 1|2, "via1": .., "via2": .., "perm1": "id"|"rev"|"rot", "tables": {...}}
     via in {"string", "file", "ctor"}: the API variant used for the export/load pair; perm1: re-ordering of the TextRegion
     elements of the first document before it is loaded."""
-    tables = case.get("tables") or default_tables()
-    tr = {"page0": case["page"], "events": [], "outcome": "ok", "where": 0}
+    tables = tables_of(case)
+    jitter = case.get("jitter")
+    tr = {"kind": "std", "page0": case["page"], "events": [], "outcome": "ok", "where": 0}
     try:
         page = build_real(case["page"], tables)
         built = proj_page(page, tables)
@@ -321,6 +351,11 @@ def run_case(case):
             tr["outcome"] = "harness:build-mismatch"
             tr["built"] = built
             return tr
+        if jitter:
+            # the object handed to the real code carries the off-grid coordinates; the execution is judged (property level only)
+            # against the page the exact rational arithmetic of oracle_page says it must come back as
+            page = build_real(case["page"], tables, jitter)
+            tr["page0"] = oracle_page(case["page"], jitter)
         plan = [("Export", case["v1"], case["via1"]), ("Load", 0, case["via1"]), ("Export", case["v2"], case["via2"]),
                 ("Load", 0, case["via2"]), ("Export", case["v2"], case["via2"])]
         xml = None
@@ -356,6 +391,133 @@ def run_case(case):
 
 
 EMPTY_DOC = {"ver": 0, "pid": 0, "size": [0, 0], "hasRO": False, "ro": [], "regions": []}
+
+
+def run_any(case):
+    """case["after"] (optional) = a case executed first in the same process, its record dropped (it is recorded as a case of its
+    own): the history the execution of `case` happens after, kept in the case so that a replay reproduces it"""
+    if case.get("after"):
+        run_any(case["after"])
+    return run_hist(case) if case.get("hist") else run_case(case)
+
+
+def tables_of(case):
+    t = case.get("tables")
+    if t == "scale":
+        return scale_tables()
+    return t or default_tables()
+
+
+# ------------------------------------------------------------------------------------------ history (kind = "hist")
+def _cleanup():
+    for f in os.listdir(_WORKDIR["path"]):
+        if f.startswith("px_%d_" % os.getpid()):
+            try:
+                os.remove(os.path.join(_WORKDIR["path"], f))
+            except OSError:
+                pass
+
+
+def edit_in_place(page, dx, dy, dh):
+    """What the owner of a loaded page does with it (e.g. after the scan was padded): every outline and baseline moved by
+    (dx, dy) pixels and every height grown by dh, IN PLACE where the object allows it (numpy `+=`, list item assignment) and
+    by re-assignment where it does not (read-only array, tuple, ...)."""
+    off = np.array([dx, dy])
+
+    def moved(a):
+        if isinstance(a, np.ndarray) and a.ndim == 2:
+            try:
+                a += off
+                return a
+            except Exception:
+                pass
+        return np.asarray(a) + off
+
+    for r in page.regions:
+        r.polygon = moved(r.polygon)
+        for l in r.lines:
+            l.baseline = moved(l.baseline)
+            l.polygon = moved(l.polygon)
+            if l.heights is not None and dh:
+                try:
+                    l.heights[0] += dh
+                    l.heights[1] += dh
+                except Exception:
+                    l.heights = [l.heights[0] + dh, l.heights[1] + dh]
+
+
+_LAST_POINTS = re.compile(r'points="[^"]*"(?![\s\S]*points=")')
+
+
+def failing_load(xml, via):
+    """A load that may fail half way, between two calls of a case (the process, and whatever module-level state the library
+    keeps, goes on living): the document with its last points attribute damaged.  Whatever happens is ignored."""
+    try:
+        _load(_LAST_POINTS.sub('points="7,7 9;oops"', xml, count=1), via, "bad")
+    except Exception:
+        pass
+
+
+def _ev(a, page, tables, v=0, via="none", how="none", pm=(), xml=None):
+    return {"a": a, "v": v, "via": via, "how": how, "pm": list(pm),
+            "doc": proj_doc(xml, tables) if xml is not None else EMPTY_DOC, "hash": doc_hash(xml) if xml is not None else 0,
+            "page": proj_page(page, tables)}
+
+
+def run_hist(case):
+    """History across long-lived objects in ONE process (the statement is about any page and any document, whatever was loaded,
+    edited or failed before):
+        Export v1 P -> X1; Load X1 -> L1; Export v2 L1 -> X2;
+        Edit L1 in place (the caller moves its own page); Export v2 L1 -> X3; Load X3 -> L2;
+        [a load that fails half way]; Load X1 AGAIN -> L3; Export v2 L3 -> X4
+    case = {"hist": True, "page", "v1", "v2", "via1", "via2", "shift": [dx, dy, dh16], "fail": bool, "tables"}; L1 stays alive
+    to the end.  Judged by PageXml_Trace (HClause), property level only."""
+    tables = tables_of(case)
+    tr = {"kind": "hist", "page0": case["page"], "events": [], "outcome": "ok", "where": 0}
+    v1, v2, a, b = case["v1"], case["v2"], case["via1"], case["via2"]
+    dx, dy, dh16 = case["shift"]
+    ea, eb = ("string" if a == "string" else "file"), ("string" if b == "string" else "file")
+    try:
+        page = build_real(case["page"], tables)
+        if proj_page(page, tables) != case["page"]:
+            tr["outcome"] = "harness:build-mismatch"
+            return tr
+        ev = tr["events"]
+        ident = lambda doc: perm_of("id", len(doc["regions"]))
+        tr["where"] = 1
+        x1 = _export(page, v1, ea, "h1")
+        ev.append(_ev("Export", page, tables, v=v1, via=a, xml=x1))
+        tr["where"] = 2
+        l1 = _load(x1, a, "h2")
+        ev.append(_ev("Load", l1, tables, via=a, how=HOW_OF[a], pm=ident(ev[0]["doc"])))
+        tr["where"] = 3
+        x2 = _export(l1, v2, eb, "h3")
+        ev.append(_ev("Export", l1, tables, v=v2, via=b, xml=x2))
+        tr["where"] = 4
+        edit_in_place(l1, dx, dy, dh16 / 16.0)
+        ev.append(_ev("Edit", l1, tables))
+        tr["where"] = 5
+        x3 = _export(l1, v2, eb, "h5")
+        ev.append(_ev("Export", l1, tables, v=v2, via=b, xml=x3))
+        tr["where"] = 6
+        l2 = _load(x3, b, "h6")
+        ev.append(_ev("Load", l2, tables, via=b, how=HOW_OF[b], pm=ident(ev[4]["doc"])))
+        if case.get("fail"):
+            failing_load(x1, a)
+        tr["where"] = 7
+        l3 = _load(x1, a, "h7")
+        ev.append(_ev("Load", l3, tables, via=a, how=HOW_OF[a], pm=ident(ev[0]["doc"])))
+        tr["where"] = 8
+        x4 = _export(l3, v2, eb, "h8")
+        ev.append(_ev("Export", l3, tables, v=v2, via=b, xml=x4))
+        if x1 is x4 or l1 is None or l2 is None:     # keep every object alive to the end
+            pass
+    except Exception as ex:     # any failure of the real code is part of the observation
+        tr["outcome"] = "exception:" + type(ex).__name__
+        tr["error"] = str(ex)[:200]
+    finally:
+        _cleanup()
+    return tr
 
 
 # ------------------------------------------------------------------------------------------ page spaces
@@ -428,4 +590,87 @@ def structure_pages(region_ids, ro_values, lines_of):
                              text=(None if j == 1 else 1), conf=None) for j in range(lines_of.get(rid, 0))]
             regs.append(mk_region(rid, lines))
         pages.append(mk_page(regs, ro=ro))
+    return pages
+
+
+# ------------------------------------------------------------------------------------------ scale
+_SCALE_TABLES = {}
+
+
+def scale_tables():
+    """default tables + transcriptions longer than any 16-bit length (deterministic; referred to by case["tables"] = "scale")"""
+    if not _SCALE_TABLES:
+        t = default_tables()
+        unit = "long line <&> שלום é \U0001F600 "
+        t["texts"] = t["texts"] + [(unit * (70000 // len(unit) + 1))[:70000] + "|end", " " + "x" * 66000 + "\n" + "y" * 300 + " "]
+        _SCALE_TABLES.update(t)
+    return _SCALE_TABLES
+
+
+LONG_TEXTS = [len(TEXTS), len(TEXTS) + 1]
+B15, B16, B24, B25, B27 = 2 ** 15, 2 ** 16, 2 ** 24, 2 ** 25, 2 ** 27
+
+
+def _q(*pts):
+    """points given in pixels (multiples of 1/4) -> quarters"""
+    out = []
+    for x, y in pts:
+        assert (x * 4) == int(x * 4) and (y * 4) == int(y * 4) and abs(x * 4) < 2 ** 30 and abs(y * 4) < 2 ** 30
+        out.append((int(x * 4), int(y * 4)))
+    return tuple(out)
+
+
+def scale_pages():
+    """Sampled pages beyond the small bounds of the exhaustive spaces, all still inside what TLC evaluates exactly (32-bit
+    integers: |coordinate| < 2**28 px): coordinates beyond 2**15 / 2**16 / 2**24 (odd integers, halves and quarters that a
+    float32 cannot hold) / 2**27, positive and negative; page sizes and line indices beyond 2**16 and 2**24; heights beyond
+    6553.5 and 65535; a region of 300 lines; outlines of 1100 and baselines of 300 points; transcriptions of 70 000 characters."""
+    pages = []
+    # 1. far from the origin, one line, every magnitude class
+    for k, (ox, oy) in enumerate([(B15 + 1, B16 + 3), (B24 + 13, B25 + 7), (-B24 - 3, -B25 - 5), (B27 + 5, -B27 - 9),
+                                  (B24 + 1, 3), (-7, B24 + B16 + 1)]):
+        bl = _q((ox + 1, oy + 61), (ox + 401.5, oy + 62.25), (ox + 781, oy + 65.75))
+        poly = _q((ox + 21, oy + 31), (ox + 781.25, oy + 33), (ox + 780.5, oy + 75), (ox + 22.5, oy + 73.75))
+        rpoly = _q((ox + 11, oy + 11), (ox + 801, oy + 13.5), (ox + 803.75, oy + 401), (ox + 9, oy + 399))
+        ln = mk_line("l%d" % k, idx=[None, 70000, B24 + 1, 0, 65536, 255][k], bl=bl, poly=poly,
+                     hts=[(820, 400), (70000 * 80 + 5, 6554 * 80), (20, 60), (900000 * 80 + 20, 5), (100, 35), (65536 * 80, 0)][k],
+                     text=1, conf=[8000, None, 127875, 24000, None, 0][k])
+        l2 = mk_line("m%d" % k, idx=None, bl=_q((ox + 3, oy + 161), (ox + 783, oy + 163)),
+                     poly=_q((ox + 3, oy + 131), (ox + 783, oy + 133), (ox + 783, oy + 175), (ox + 3, oy + 173)), hts=(160, 40))
+        pages.append(mk_page([mk_region("r1", [ln, l2], typ=0, text=None, poly=rpoly),
+                              mk_region("r2", [], poly=_q((ox + 11, oy + 501), (ox + 801, oy + 501), (ox + 801, oy + 901)))],
+                             ro=[None, [("r2", 0), ("r1", 70000)]][k % 2], pid=k % 2,
+                             size=[(100, 200), (40000000, 60000000), (70001, 65537), (B24 + 1, B27 + 1), (65535, 65536), (1, 1)][k]))
+    # 2. many lines in one region, long outlines, long transcriptions
+    lines = [mk_line("l%03d" % j, idx=(None if j % 3 else 2 * j), bl=_q((10, 20 * j + 12.5), (500.25, 20 * j + 13)),
+                     poly=_q((10, 20 * j), (500, 20 * j + 0.5), (500, 20 * j + 18), (10, 20 * j + 17.75)),
+                     hts=(16 * 80 + 5 * (j % 16), 400), text=(None if j % 7 == 3 else j % 8), conf=(None if j % 7 == 3 or j % 2 else (125 * j) % 128001))
+             for j in range(300)]
+    pages.append(mk_page([mk_region("many", lines, typ=0, text=2)], size=(7000, 600)))
+    ring = _q(*([(j + 0.25 * (j % 4), -(j % 5) - 0.5) for j in range(550)] + [(549 - j, 40 + 0.75 * (j % 3)) for j in range(550)]))
+    longbl = _q(*[(2 * j, 20 + (j % 2) * 0.5) for j in range(300)])
+    pages.append(mk_page([mk_region("long", [mk_line("l1", idx=0, bl=longbl, poly=ring, hts=(820, 400), text=LONG_TEXTS[0], conf=8000),
+                                             mk_line("l2", idx=1, hts=(20, 60), text=LONG_TEXTS[1], conf=None)],
+                                    typ=1, text=LONG_TEXTS[0], poly=ring)], pid=1))
+    return pages
+
+
+def many_regions_page(n=260):
+    """more regions than an 8-bit index addresses; every sixth under a reversed reading order with indices beyond 255, the others
+    unlisted.  (Judged at the property level only: the recursive sort of the design cannot order that many regions inside TLC.)"""
+    regs = [mk_region("r%03d" % i, [mk_line("r%03d-l" % i, hts=(160, 40), text=(i % 3 if i % 5 else None))] if i % 50 == 0 else [],
+                      poly=_q((i, 2 * i), (i + 10.5, 2 * i), (i + 10, 2 * i + 7.25))) for i in range(n)]
+    return mk_page(regs, ro=[("r%03d" % i, 1000 - 3 * i) for i in range(n) if i % 6 == 0])
+
+
+def fine_pages():
+    """Pages for the 'fine' inputs (case["jitter"]): coordinates on and around x.5 and x.25 with odd and even, positive and negative
+    integer parts; the real object gets them moved by +-2**-jitter (see _pts / oracle_page)."""
+    pages = []
+    for k, (ox, oy) in enumerate([(0, 0), (1000, -2000), (-3001, 4001), (B16 + 1, B15)]):
+        bl = _q((ox + 11.5, oy + 60.5), (ox + 400.5, oy + 61.5), (ox + 780.25, oy + 63.75))
+        poly = _q((ox + 20.5, oy + 30), (ox + 780, oy + 33.5), (ox + 779.5, oy + 75.5), (ox + 21.5, oy + 72.5))
+        rpoly = _q((ox + 10.5, oy + 10.5), (ox + 801.5, oy + 12.5), (ox + 800.5, oy + 400.25), (ox + 9.75, oy + 399.5))
+        pages.append(mk_page([mk_region("r1", [mk_line("l1", idx=0, bl=bl, poly=poly, hts=(820, 400), text=1, conf=8000)],
+                                        typ=0, text=1, poly=rpoly)]))
     return pages
